@@ -114,7 +114,10 @@ def run(ck):
                      "bit columns have %s significance from site 0 (expected descending = big-endian): %r" % (pc, t), polarity=pc)
             ck.check(True if pr == ASC else (False if pr == DESC else None), "C19.R1", "generate_hilbert_space:row k is integer k", ghs.site(),
                      "rows are enumerated in %s integer order (expected ascending)" % pr)
-            ck.check(p.value.shape is not None and len(p.value.shape) == 2 and p.value.shape[1] == "n", "C19.R1", "generate_hilbert_space:shape", ghs.site(), "space has shape %s, expected (2^n, n)" % (p.value.shape,))
+            sh = p.value.shape
+            okshape = sh is not None and len(sh) == 2 and sh[1] == "n"
+            unknown = sh is None or (len(sh) == 2 and sh[1] == "?")
+            ck.check(True if okshape else (None if unknown else False), "C19.R1", "generate_hilbert_space:shape", ghs.site(), "space has shape %s, expected (2^n, n)" % (sh,))
             sy = t.syms()
             ck.check("n" in sy, "C19.R1", "generate_hilbert_space:uses size", ghs.site(), "the requested size does not determine the space")
     with ck.guard("C19.R1", "generate_hilbert_space/fresh", ghs.site()):
@@ -129,9 +132,27 @@ def run(ck):
             s_, a, b, n0 = p.value
             ck.check(isinstance(a, VTens) and isinstance(b, VTens) and a.obj is not b.obj and a.obj.origin == "fresh", "C19.R1", "generate_hilbert_space:a new tensor on every call [%s]" % path_tag(p), ghs.site(),
                      "two calls return the same tensor object: a caller that overwrites the returned space (e.g. sample(..., initial_state=space, overwrite=True)) corrupts every later result")
-            kept = [e for e in p.effects[n0:] if e.kind in ("setattr", "container") and "self" in e.origins]
-            ck.check(not kept, "C19.R1", "generate_hilbert_space:nothing stored on the model [%s]" % path_tag(p), kept[0].site if kept else ghs.site(),
-                     "generate_hilbert_space stores state on the model (%s)" % (kept[0].detail if kept else ""))
+            # keeping a private copy is harmless; keeping the very tensor that is handed out is not (the caller may
+            # overwrite it in place): decided on object identity of what the model holds after the calls
+            held = []
+
+            def reach(v, depth=0):
+                if depth > 4:
+                    return
+                if isinstance(v, VTens):
+                    held.append(v.obj)
+                elif isinstance(v, (VList, VTuple)):
+                    for x in p.interp.concrete_items(v) or []:
+                        reach(x, depth + 1)
+                elif isinstance(v, VDict) and v.obj.items is not None:
+                    for x in v.obj.items.values():
+                        reach(x, depth + 1)
+
+            for v in s_.inst.attrs.values():
+                reach(v)
+            outs = [x.obj for x in (a, b) if isinstance(x, VTens)]
+            ck.check(not any(o is h for o in outs for h in held), "C19.R1", "generate_hilbert_space:the tensor handed out is not kept by the model [%s]" % path_tag(p), ghs.site(),
+                     "the model keeps a reference to the very tensor it returns: overwriting the returned space changes what later calls see")
     with ck.guard("C19.R1", "subspace_vector", sv.site()):
         def th2(it):
             s = make_state(it, "PositiveWaveFunction")
@@ -302,6 +323,16 @@ def run(ck):
 
         check_history(ck, "C19.R4", cls + ".generate_hilbert_space(n)", ghs.site(), mk, lambda it, c: call(it, c[0], "generate_hilbert_space", api.intsym("n")), inputs=False)
         check_history(ck, "C19.R4", cls + ".generate_hilbert_space()", ghs.site(), mk, lambda it, c: call(it, c[0], "generate_hilbert_space"), inputs=False)
+    from .history import check_after
+
+    for cls in ("PositiveWaveFunction", "DensityMatrix"):
+        def mk(it, cls=cls):
+            return (make_state(it, cls),)
+
+        check_after(ck, "C19.R4", cls + ".generate_hilbert_space(n) after the full space was generated", ghs.site(), mk,
+                    lambda it, c: call(it, c[0], "generate_hilbert_space"), lambda it, c: call(it, c[0], "generate_hilbert_space", api.intsym("n")))
+        check_after(ck, "C19.R4", cls + ".generate_hilbert_space() after a smaller space was generated", ghs.site(), mk,
+                    lambda it, c: call(it, c[0], "generate_hilbert_space", api.intsym("n")), lambda it, c: call(it, c[0], "generate_hilbert_space"))
     ck.require_min("C19.R4", 6)
     ck.require_min("C19.R1", 9)
     ck.require_min("C19.R2", 4)
